@@ -279,6 +279,10 @@ impl FarmWorld {
             return;
         }
         let l = self.led.clone();
+        // ---------------------------------------------------------------- C19 (paused means no fund moves)
+        if !pre.act && matches!(site, "enter" | "enterOB" | "claim" | "claimOB" | "compound" | "exit" | "merge" | "claimBoosted") {
+            tr.fail("C19", "paused_blocks_funds", site, "a fund-moving user operation succeeded while the farm is paused");
+        }
         // ---------------------------------------------------------------- C05
         if l.generated < l.paid || post.res != &l.generated - &l.paid {
             tr.fail("C05", "reserve_exact", site, &format!("reserve={} generated={} paid={}", post.res, l.generated, l.paid));
